@@ -6,7 +6,7 @@ from jv.props import common as C
 ID = "C01"
 LEVEL = "exploration"
 TECHNIQUE = "Hypothesis-generated scenarios x schedules in a deterministic simulation world; invariant over the sbatch/launch history"
-BUDGET = {"quick": 2400, "thorough": 40000}
+BUDGET = {"quick": 4000, "thorough": 48000}
 RULE = (
     "case = generated scenario (DAG of 1-12 jobs in arbitrary listing order, 1-3 submission groups, batch size / "
     "time-based batching, try-add-blocked, max-nodes) x generated schedule (list of scheduling choices) x up to 3 "
